@@ -372,7 +372,7 @@ class Event:
 
     def json(self):
         if self.kind == "wake":
-            return {"wake": [self.db, "L" if self.left else "R", hx(self.key), hx(self.value)]}
+            return {"wake": [self.db, "L" if self.left else "R", hx(self.key), hx(self.value), "immediate" if self.immediate else "served"]}
         return {"cmd": [hx(a) for a in self.raw], "via_exec": self.via_exec, "reply": repr(self.reply)[:200]}
 
 
@@ -402,7 +402,8 @@ def spec_log(events, write_table, repairs, evalsha_db0=False):
 
     for e in events:
         if e.kind == "wake":
-            if "wake" in repairs:
+            # the pop made for a blocking client: at once (cause "blpop") or when the blocked client is served (cause "wake")
+            if ("blpop" if e.immediate else "wake") in repairs:
                 emit([b"LPOP" if e.left else b"RPOP", e.key], e.db)
             continue
         name, eff, inner = e.name(), e.eff(), e.inner()
@@ -414,9 +415,7 @@ def spec_log(events, write_table, repairs, evalsha_db0=False):
                 out.append(e.raw)
             continue
         if name in ("BLPOP", "BRPOP") and not logged:
-            if "blpop" in repairs and e.reply is not None and e.reply[0] == "a" and len(e.reply[1]) == 2:
-                emit([b"LPOP" if name == "BLPOP" else b"RPOP", e.reply[1][0][1]], conn_db)
-            continue
+            continue            # the command itself leaves no entry; its pop is a separate `wake` event
         if name == "EVALSHA" and "evalsha" in repairs and getattr(e, "script", None) is not None:
             # (on a tree where EVALSHA ignores the selected database — C18's finding — the script ran in db 0)
             emit([b"EVAL", e.script] + e.raw[2:], 0 if evalsha_db0 else conn_db)
@@ -444,6 +443,15 @@ class Runner:
         self.rep = rep
         self.facts = facts
         self.table = set(facts["writeCommands"] or [])
+        # deviations the tree no longer has (the translator sees the repairs in the source)
+        self.base = set()
+        if facts.get("selectTracked"):
+            self.base.add("select")
+        if facts.get("wakeLogs"):
+            self.base.add("wake")
+        if facts.get("blockingPopLogged"):
+            self.base.add("blpop")
+        self.causes = [c for c in CAUSES if c not in self.base]
         self.model = lean_driver("aof")
         self.live = None
         self.replay_srv = Server("c11-replay")
@@ -456,7 +464,8 @@ class Runner:
         self.new_live()
 
     def spec(self, events, repairs):
-        return spec_log(events, self.table, repairs, self.evalsha_db0)
+        """the log with the given deviations repaired, on top of what the tree already does (`self.base`)"""
+        return spec_log(events, self.table, set(repairs) | self.base, self.evalsha_db0)
 
     def probe_evalsha_db(self):
         """does EVALSHA run in the selected database (True) or always in db 0 (C18's finding)?  Probed on the replay server."""
@@ -479,7 +488,7 @@ class Runner:
 
     def configure_model(self):
         names = "|".join(sorted(self.table)) if self.table else "."
-        if self.model.ask("cfg %s 0 0" % names) != "ok":
+        if self.model.ask("cfg %s %d %d" % (names, 1 if self.facts.get("selectTracked") else 0, 1 if self.facts.get("wakeLogs") else 0)) != "ok":
             raise InternalError("drv_aof refused cfg")
 
     def now(self):
@@ -622,6 +631,9 @@ class Runner:
             raw = [bname, key, b"0"]
             r = self.c.cmd(*raw, timeout=5)
             self.event(raw, r)
+            if r[0] == "a" and len(r[1]) == 2:
+                e = Event("wake", db=self.db, left=left, key=r[1][0][1], value=r[1][1][1], immediate=True)
+                self.events.append(self.feed(e))
             return
         if t != ("s", b"none"):
             return
@@ -631,13 +643,19 @@ class Runner:
                 raise InternalError("SELECT on the blocking client failed")
             a.send(bname, key, b"0")
             # wait until the registry of the selected database lists the key
-            for _ in range(400):
+            t_end = time.monotonic() + 20.0
+            while True:
                 reg = self.c.cmd("VERIF", "BLOCKED")
                 if reg[0] == "a" and any(x == ("b", key) for x in reg[1]):
                     break
-                time.sleep(0.005)
-            else:
-                raise InternalError("blocked client never appeared in VERIF BLOCKED")
+                if time.monotonic() > t_end:
+                    early = None
+                    try:
+                        early = a.read_reply(0.2)
+                    except (TimeoutError, Closed, ProtocolError):
+                        pass
+                    raise InternalError("blocked client never appeared in VERIF BLOCKED (registry %r, its reply so far %r)" % (reg, early))
+                time.sleep(0.003)
             if via == "exec":
                 self.do_exec([push])
             else:
@@ -648,7 +666,7 @@ class Runner:
             except TimeoutError:
                 r = None
             if r is not None and r[0] == "a" and len(r[1]) == 2:
-                e = Event("wake", db=self.db, left=left, key=key, value=r[1][1][1])
+                e = Event("wake", db=self.db, left=left, key=key, value=r[1][1][1], immediate=False)
                 self.events.append(self.feed(e))
                 self.rep.evaluations += 1
             elif pushed_ok:
@@ -760,8 +778,8 @@ def judge(R, plan, db, ks_only, fs, tag, check_every_command=False):
     res.update({"same": same, "in_model": in_model, "covered": covered})
     rep.count("history.%s" % ("replay=live" if same else "replay!=live"))
     if not same:
-        present = [c for c in CAUSES if R.spec(events, {c}) != R.spec(events, set())]
-        full = R.spec(events, set(CAUSES))
+        present = [c for c in R.causes if R.spec(events, {c}) != R.spec(events, set())]
+        full = R.spec(events, set(R.causes))
         rfull = R.replay_into_fresh(full, dbs)
         det = {"kind": "replay", "history": hist, "events": [e.json() for e in events][:120], "file": [[hx(a) for a in c] for c in file_cmds][:120],
                "live": live, "replayed": rp, "causes_present": present}
@@ -773,7 +791,7 @@ def judge(R, plan, db, ks_only, fs, tag, check_every_command=False):
         else:
             active = []
             for c in present:
-                partial = R.spec(events, set(CAUSES) - {c})
+                partial = R.spec(events, set(R.causes) - {c})
                 if R.replay_into_fresh(partial, dbs) != live:
                     active.append(c)
             if not active:
@@ -815,8 +833,8 @@ def judge(R, plan, db, ks_only, fs, tag, check_every_command=False):
     # distribution
     for e in events:
         if e.kind == "wake":
-            rep.count("path.wake")
-            rep.nontrivial(("wake", "L" if e.left else "R", e.db != 0))
+            rep.count("path.%s" % ("blpop-immediate" if e.immediate else "wake"))
+            rep.nontrivial(("wake", e.immediate, "L" if e.left else "R", e.db != 0))
             continue
         path = "exec" if e.via_exec else ("script" if e.name() == "EVAL" else "direct")
         rk = "none" if e.reply is None else ("err" if e.reply[0] == "e" else "ok")
@@ -1015,7 +1033,7 @@ def main(tier, seed):
             disagree += res["disagree"]
             if cause in res["active"]:
                 witnessed.add(cause)
-        n_hist = 60 if tier == "quick" else 1500
+        n_hist = 240 if tier == "quick" else 3000
         for h in range(n_hist):
             rr = r.fork("h%d" % h)
             profile = rr.choice(PROFILES)
@@ -1036,7 +1054,7 @@ def main(tier, seed):
             if h < 3:
                 rep.sample({"db": db, "profile": profile, "plan": show_plan(plan)[:20], "replay_equals_live": res.get("same"),
                             "all_events_covered": res.get("covered"), "causes_active": res["active"]})
-        oracle += kill_tests(R, r, fs, 4 if tier == "quick" else 30)
+        oracle += kill_tests(R, r, fs, 6 if tier == "quick" else 40)
         # ---- verdict (DESIGN 2.5)
         new = []
         for o in oracle:
